@@ -316,7 +316,7 @@ impl SeqServer {
 
     /// SIGUSR1, queries fired while the reload runs, the log line, then every marker.
     /// Returns the findings of this step.
-    fn signal_and_check(&mut self, files: &Files, loaded: &mut Files, stats: &mut SeqStats, what: &str) {
+    fn signal_and_check(&mut self, files: &Files, loaded: &mut Files, stats: &mut SeqStats, what: &str, full: bool) {
         let from = self.srv.log.len();
         let old = *loaded;
         let expect_ok = files.valid();
@@ -326,19 +326,21 @@ impl SeqServer {
         self.srv.signal(libc::SIGUSR1);
         stats.signals += 1;
         // during: each marker must answer per the old or per the new table
-        let id0 = self.ids();
-        let qs = marker_queries(id0);
-        let want = vec![true; qs.len()];
-        let during = udp_batch(self.srv.addr, &qs, &want, qs.len(), 1);
-        stats.during_queries += qs.len() as u64;
-        let (t_old, t_new) = (table(&old), table(loaded));
-        for (i, name) in MARKERS.iter().enumerate() {
-            let got = digest_reply(during.replies[i].first());
-            if !fits(&t_old[i], &got) && !fits(&t_new[i], &got) {
-                stats.findings.push((
-                    "during-reload".into(),
-                    format!("{what}: `{name} A` asked while the reload ran answered {}; old configuration says {}, new says {}", show_got(&got), show_exp(&t_old[i]), show_exp(&t_new[i])),
-                ));
+        let want = vec![true; MARKERS.len()];
+        if full {
+            let id0 = self.ids();
+            let qs = marker_queries(id0);
+            let during = udp_batch(self.srv.addr, &qs, &want, qs.len(), 1);
+            stats.during_queries += qs.len() as u64;
+            let (t_old, t_new) = (table(&old), table(loaded));
+            for (i, name) in MARKERS.iter().enumerate() {
+                let got = digest_reply(during.replies[i].first());
+                if !fits(&t_old[i], &got) && !fits(&t_new[i], &got) {
+                    stats.findings.push((
+                        "during-reload".into(),
+                        format!("{what}: `{name} A` asked while the reload ran answered {}; old configuration says {}, new says {}", show_got(&got), show_exp(&t_old[i]), show_exp(&t_new[i])),
+                    ));
+                }
             }
         }
         match self.srv.log.wait_for(from, Duration::from_secs(20), |l| l.contains("done - success") || l.contains("done - failure")) {
@@ -355,6 +357,10 @@ impl SeqServer {
                     ));
                 }
             }
+        }
+        if !full {
+            // a step already judged in full as the last step of a shorter sequence
+            return;
         }
         let id0 = self.ids();
         let qs = marker_queries(id0);
@@ -384,20 +390,22 @@ impl SeqServer {
         }
         let mut loaded = self.loaded;
         let before = stats.findings.len();
-        self.signal_and_check(&BASE, &mut loaded, stats, "reset to the base files");
+        self.signal_and_check(&BASE, &mut loaded, stats, "reset to the base files", true);
         self.loaded = loaded;
         stats.findings.len() == before
     }
 
     /// One edit sequence from the reset state.
-    fn run_sequence(&mut self, edits: &[Edit], stats: &mut SeqStats) -> Option<(Files, Files)> {
+    /// `last_only`: judge only the last step in full (the earlier steps are the last steps of
+    /// shorter sequences explored before); their log verdicts are still checked.
+    fn run_sequence(&mut self, edits: &[Edit], stats: &mut SeqStats, last_only: bool) -> Option<(Files, Files)> {
         if !self.reset(stats) {
             return None;
         }
         let mut files = BASE;
         let mut loaded = BASE;
         let mut done: Vec<&str> = Vec::new();
-        for (name, f) in edits {
+        for (k, (name, f)) in edits.iter().enumerate() {
             let Some(next) = f(&files) else {
                 return None;
             };
@@ -407,7 +415,7 @@ impl SeqServer {
                 return None;
             }
             let what = format!("after [{}] + SIGUSR1", done.join("; "));
-            self.signal_and_check(&files, &mut loaded, stats, &what);
+            self.signal_and_check(&files, &mut loaded, stats, &what, !last_only || k + 1 == edits.len());
             self.loaded = loaded;
         }
         Some((files, loaded))
@@ -1221,7 +1229,7 @@ fn seq_violation(edits: &[&str], clause: &str, text: &str) -> Violation {
 pub fn run(ctx: &Ctx) -> i32 {
     let root = work_dir("c19");
     let _guard = DirGuard(root.clone());
-    let n_seq = ctx.tier.pick(4usize, 6);
+    let n_seq = ctx.tier.pick(4usize, 8);
     let n_gate = ctx.tier.pick(6usize, 8);
     // all processes are started from this (long-lived) thread
     let mut seq_servers: Vec<SeqServer> = Vec::new();
@@ -1244,7 +1252,7 @@ pub fn run(ctx: &Ctx) -> i32 {
             }
         }
     }
-    let seq_deadline = ctx.start + Duration::from_secs_f64(ctx.tier.pick(36.0, 300.0));
+    let seq_deadline = ctx.start + Duration::from_secs_f64(ctx.tier.pick(36.0, 500.0));
     let gate_deadline = ctx.start + Duration::from_secs_f64(ctx.tier.pick(36.0, 540.0));
     let mut report = Report::new();
     let sink = Sink::new(6);
@@ -1312,7 +1320,7 @@ pub fn run(ctx: &Ctx) -> i32 {
                             break;
                         }
                         let mut stats = SeqStats::default();
-                        let end = srv.run_sequence(&cands[i], &mut stats);
+                        let end = srv.run_sequence(&cands[i], &mut stats, dedup && cands[i].len() > 2);
                         seq_counts.0.fetch_add(1, Ordering::Relaxed);
                         seq_counts.1.fetch_add(stats.signals, Ordering::Relaxed);
                         seq_counts.2.fetch_add(stats.marker_queries, Ordering::Relaxed);
@@ -1397,7 +1405,7 @@ pub fn run(ctx: &Ctx) -> i32 {
     report.traces_validated = sequences + gate_totals.schedules + gate_totals.replayed;
     let failing_seqs: u64 = seq_hist.lock().unwrap().iter().filter(|(k, _)| k.contains("fails")).map(|(_, v)| *v).sum();
     report.distinct_nontrivial = failing_seqs + gate_totals.hist.iter().filter(|(k, _)| k.contains("blocked on the lock")).map(|(_, v)| *v).sum::<u64>();
-    report.rule = "sequential: every edit sequence from the reset state (quick: all of length <= 2; thorough: breadth-first to depth 4 keeping one sequence per distinct (files, loaded) state), SIGUSR1 and all marker queries after every edit; non-trivial = sequences whose last reload must fail (the old configuration has to survive). gate: every schedule of release choices (stateless DFS, each schedule run twice); non-trivial = schedules in which a released task was observed to block on the zones lock (the two critical sections were actually contended)".into();
+    report.rule = "sequential: every edit sequence from the reset state (quick: all of length <= 2; thorough: breadth-first to depth 4 keeping one sequence per distinct (files, loaded) state; from depth 3 on the earlier steps of a sequence, already judged as last steps of shorter sequences, are only checked for their log verdict), SIGUSR1 and all marker queries after every edit; non-trivial = sequences whose last reload must fail (the old configuration has to survive). gate: every schedule of release choices (stateless DFS, each schedule run twice); non-trivial = schedules in which a released task was observed to block on the zones lock (the two critical sections were actually contended)".into();
     report.merge_hist(&seq_hist.lock().unwrap());
     report.merge_hist(&gate_totals.hist);
     report.samples = seq_samples.lock().unwrap().clone();
@@ -1492,7 +1500,7 @@ pub fn replay(_ctx: &Ctx, v: &Value) -> i32 {
             }
         };
         let mut stats = SeqStats::default();
-        let end = srv.run_sequence(&edits, &mut stats);
+        let end = srv.run_sequence(&edits, &mut stats, false);
         println!("C19 replay: edits {names:?}, SIGUSR1 after each");
         if let Some((files, loaded)) = end {
             println!("  reference: files = {}", files.to_json());
